@@ -311,10 +311,10 @@ pub fn def_b() -> CheckDef {
         id: "C13b",
         title: "Isolation: the outcome does not depend on how client threads interleave with the engine's thread (layer 2)",
         case: case_b,
-        rule: "case = generated model with parallel structure (multi-branch steps, block/parallel/sequence acts) x scripted client (complete / skip / abort / error / submit / remove) played by 1..3 virtual client threads that answer every interrupt as soon as its message has been delivered, while the executor runs as one more virtual thread (in a third of the cases the process first reaches its interrupts at a quiescent point and is dropped from the cache, so that the threads have to bring it back from the store): the baton moves at intercepted engine lock acquisitions (preemption probability 1% / 10% / 50%), so a client action lands in the middle of the scheduler's work on the same process (between a check and the lock, between two queued siblings) x seeded baton choices. Judged by the invariants that hold for every interleaving: no terminal task state is rewritten and stages only move forward (C02's monitor), at most one terminal message per task and stream/trace agreement (C08's monitor), nothing open beneath a completed task and one terminal event at the final quiescent point (C03's oracle), no deadlock of the engine on its own locks, no panic. non-trivial = a client call overlapped engine work (a baton switch inside a client call) and at least one non-complete action was accepted; distinct = distinct (scenario hash, schedule hash)",
+        rule: "case = generated model with parallel structure (multi-branch steps, block/parallel/sequence acts) x scripted client (complete / skip / abort / error / submit / remove) played by 1..3 virtual client threads that answer every interrupt as soon as its message has been delivered, while the executor runs as one more virtual thread (in a third of the cases the process first reaches its interrupts at a quiescent point and is dropped from the cache, so that the threads have to bring it back from the store; in a sixth two further threads start a process with one and the same pid at the same moment - exactly one call is accepted): the baton moves at intercepted engine lock acquisitions (preemption probability 1% / 10% / 50%), so a client action lands in the middle of the scheduler's work on the same process (between a check and the lock, between two queued siblings) x seeded baton choices. Judged by the invariants that hold for every interleaving: no terminal task state is rewritten and stages only move forward (C02's monitor), at most one terminal message per task and stream/trace agreement (C08's monitor), nothing open beneath a completed task and one terminal event at the final quiescent point (C03's oracle), no deadlock of the engine on its own locks, no panic. non-trivial = a client call overlapped engine work (a baton switch inside a client call) and at least one non-complete action was accepted; distinct = distinct (scenario hash, schedule hash)",
         level: "exploration",
         assumptions: &["preemption happens at engine lock acquisitions (all shared engine state is behind these locks)", "virtual threads are real OS threads released one at a time; the interleaving is the decision trace", "monotone simulated clock"],
-        probes: &["probe.switch_inside_client_call", "probe.forced_switch", "probe.three_client_threads", "probe.non_complete_action_accepted", "probe.action_while_tasks_queued", "probe.evicted_before_the_threads"],
+        probes: &["probe.switch_inside_client_call", "probe.forced_switch", "probe.three_client_threads", "probe.non_complete_action_accepted", "probe.action_while_tasks_queued", "probe.evicted_before_the_threads", "probe.racing_duplicate_start"],
         quick_cases: 3000,
         no_shrink: &[],
     }
@@ -330,13 +330,24 @@ pub fn case_b(ctx: &mut CaseCtx) -> CaseOut {
         // number of client threads and preemption rate travel in the scenario (replays)
         sc.max_ops = 1 + rng.below(3) as u32;
         sc.pre_jump_us = *rng.pick(&[10i64, 100, 500]);
-        sc.ticks = if rng.below(3) == 0 { 1 } else { 0 };
+        sc.ticks = match rng.below(6) {
+            0 | 1 => 1,
+            2 => 2,
+            _ => 0,
+        };
         sc.capture = true;
         sc
     });
     let n_threads = sc.max_ops.clamp(1, 3) as usize;
     // carried in the scenario as well: a third of the cases evict the process before the threads start
     let evict_first = sc.ticks == 1;
+    // ... and a sixth let two further threads start a process with one and the same pid at the same moment
+    let racing_start = sc.ticks == 2;
+    let start_results: std::sync::Arc<std::sync::Mutex<Vec<bool>>> = Default::default();
+    let start_results2 = start_results.clone();
+    if racing_start {
+        ctx.count("probe.racing_duplicate_start", 1);
+    }
     if evict_first {
         ctx.count("probe.evicted_before_the_threads", 1);
     }
@@ -373,6 +384,22 @@ pub fn case_b(ctx: &mut CaseCtx) -> CaseOut {
             }
         }
         let mut hs = vec![];
+        if racing_start {
+            // two more client threads start a process with the same pid `dup` at the same moment: one of them wins
+            for i in 0..2 {
+                let engine = w.engine().clone();
+                let epoch = w.epoch;
+                let model = starts[0].model.clone();
+                let results = start_results2.clone();
+                hs.push(vsim::vthread::spawn(&format!("starter{}", i), move || {
+                    vsim::set_epoch(epoch);
+                    let vars: acts::Vars = serde_json::json!({"pid": "dup", "a": 1, "b": 1}).into();
+                    let r = engine.executor().proc().start(&model, &vars);
+                    vsim::log(&format!("START dup by starter{} -> {:?}", i, r.is_ok()));
+                    results.lock().unwrap().push(r.is_ok());
+                }));
+            }
+        }
         for i in 0..n_threads {
             let engine = w.engine().clone();
             let rec = w.rec.clone();
@@ -461,7 +488,17 @@ pub fn case_b(ctx: &mut CaseCtx) -> CaseOut {
         ctx.count("probe.action_while_tasks_queued", 1);
     }
     let mut v: Vec<Violation> = vec![];
+    if racing_start {
+        let oks = start_results.lock().unwrap().iter().filter(|x| **x).count();
+        let started = rec.msgs.iter().filter(|m| m.via == "start" && m.pid == "dup").count();
+        if oks != 1 || started > 1 {
+            v.push(Violation::new("C13", "racing_duplicate_start", json!({"accepted": oks.min(3), "start_events": started.min(3)}), format!("two client threads started a process with the pid `dup` at the same moment: {} calls were accepted and {} start events were delivered (one of each is right)", oks, started)));
+        }
+    }
     for (name, found) in [("task_lifecycle", super::c02::lifecycle_oracle(&sc, &rec)), ("message_stream", super::c08::stream_oracle(&sc, &rec)), ("hierarchy", super::c03::hierarchy_oracle(&sc, &rec))] {
+        if !v.is_empty() {
+            break;
+        }
         if let Some(f) = found.into_iter().next() {
             v.push(Violation::new("C13", "threaded_run_breaks_invariant", json!({"invariant": name, "kind": f.kind, "of": f.property}), format!("{} client thread(s) acting while the engine's thread works (preemption {} per mille at lock points): {} [{}] {}", n_threads, preempt, f.kind, f.signature, f.detail)));
             break;
